@@ -203,6 +203,18 @@ CHECKS = {
         note="Grid of 4 points and 5 input volumes (the callback is uniform in these sizes, which is an argument, not a solver result); file "
              "parsing, table printing and kernel numerics outside; stage R runs the real command once per mode.",
         design="3/C18"),
+    "C19": dict(
+        engine="symnum+z3",
+        technique="forking symbolic execution of the real extract callback over a symbolic requested temperature / pressure (z3 decides "
+                  "every argmin comparison; per path: selected line is a nearest grid value); extract-geotherm with the bivariate spline "
+                  "uninterpreted and z3 equality of each value with SPLINE[T grid, P grid, table](T_i, P_i)",
+        text="Partial: extract - for every requested value in and beyond the tabulated range, every feasible outcome returns a nearest grid "
+             "line, the same line for every variable, labelled by the other coordinate (rows for -T, columns for -P); extract-geotherm - each "
+             "value is the spline of the table with temperatures along rows and pressures along columns evaluated at the geotherm row's "
+             "(T_i, P_i), for default and custom column names, geotherm columns passed through.",
+        note="Outside: file discovery (glob), table parsing and printing, and everything about the FITPACK spline itself (that it "
+             "reproduces grid nodes, convergence under refinement: library numerics / asymptotic statement).",
+        design="3/C19 (as built: A.4)"),
 }
 
 NOT_APPLICABLE = {
@@ -211,8 +223,6 @@ NOT_APPLICABLE = {
            "symbolic model of CPython hashing / the filesystem is within reach (DESIGN.md 3/C14).",
     "C17": "Text-file parsing/formatting (open, float(), %f, pandas.read_table): every symbolic value is realised at the C "
            "boundary; an SMT model of the parsers would verify the model, not the code (DESIGN.md 3/C17).",
-    "C19": "click callbacks over files with glob, pandas and FITPACK splines and an asymptotic oracle: nothing symbolically "
-           "executable, no bounded algebraic statement (DESIGN.md 3/C19).",
 }
 
 IN_PROGRESS = "check not built yet in this round (planned in DESIGN.md section 3; will be claimed when its harness lands)"
